@@ -129,6 +129,10 @@ func c06Positions() []c06Pos {
 		add(c06Pos{name: "define-var-typed:" + t, stmt: "var d " + t + " = %H\nprint(len(vs))", accept: []string{t}})
 	}
 	add(c06Pos{name: "define-var-typed:error", stmt: "var d error = %H\nprint(len(vs))", accept: []string{"string"}})
+	add(c06Pos{name: "define-short-grouped", stmt: "d := (%H)\nprint(len(vs))", accept: single})
+	add(c06Pos{name: "assign-grouped:int", stmt: "vi = (%H)", accept: []string{"int"}})
+	add(c06Pos{name: "redefine-existing-int-with-new", stmt: "vi, dnew := %H, 1\nprint(dnew)", accept: []string{"int"}, noCtx: true})
+	add(c06Pos{name: "redefine-existing-string-with-new", stmt: "dnew, vs := 1, %H\nprint(dnew)", accept: []string{"string"}, noCtx: true})
 	add(c06Pos{name: "define-multi.first", stmt: "d1, d2 := %H, 1\nprint(d2)", accept: single})
 	add(c06Pos{name: "define-multi.second", stmt: "d1, d2 := 1, %H\nprint(d1)", accept: single})
 	add(c06Pos{name: "define-multi.from-call", stmt: "d1, d2 := %H\nprint(len(vs))", accept: []string{"multi"}})
